@@ -214,6 +214,58 @@ theorem partners_fuel_enough (env : Env) (pseudo : Bool) (k : Nat) (names : List
 example : partnersLoop demoEnv true 4 ["A", "parenleft", "A", "parenright"] [] = ["A", "parenleft", "parenright", "A"] := by
   decide +kernel
 
+/-- The container-partner pass returns a permutation WHATEVER the close-relative look-up answers: a partner that
+is not in the list, the name itself (a neutral glyph carrying both code points of an open/close pair), two names
+closing each other, chains — there is no hypothesis on `env`. -/
+theorem partners_perm (env : Env) (asc pseudo : Bool) (names : List Name) :
+    (sortByContainerPartners env asc pseudo names).flatten.Perm names :=
+  sortByContainerPartners_perm env asc pseudo names
+
+example : neutralEnv.closeRelativeFor "quotedblleft" true = some "quotedblleft" ∧
+    (sortByContainerPartners neutralEnv true true ["quotedblleft", "comma", "a"]).flatten = ["quotedblleft", "comma", "a"] := by
+  decide +kernel
+
+/-- A name that is its own close relative and does not wait a second time behind itself: it is emitted once and
+the loop goes on with exactly the names that were waiting behind it. -/
+theorem partners_self_relative (env : Env) (pseudo : Bool) (fuel : Nat) (g : Name) (rest order : List Name)
+    (hself : env.closeRelativeFor g pseudo = some g) (hn : g ∉ rest) :
+    partnersLoop env pseudo (fuel + 1) (g :: rest) order = partnersLoop env pseudo fuel rest (order ++ [g]) := by
+  simp [partnersLoop, hself, hn]
+
+/-- … and when it does, its first waiting copy — nothing else — moves right behind it. -/
+theorem partners_self_relative_repeated (env : Env) (pseudo : Bool) (fuel : Nat) (g : Name) (rest order : List Name)
+    (hself : env.closeRelativeFor g pseudo = some g) (hin : g ∈ rest) :
+    partnersLoop env pseudo (fuel + 1) (g :: rest) order =
+      partnersLoop env pseudo fuel (rest.erase g) (order ++ [g] ++ [g]) := by
+  simp [partnersLoop, hself, hin]
+
+example : partnersLoop neutralEnv true 4 ["quotedblleft", "comma", "quotedblleft", "a"] [] =
+    ["quotedblleft", "quotedblleft", "comma", "a"] := by decide +kernel
+
+/-- Where the loop drops its head (`glyphNames = glyphNames[1:]`, before or after looking for the close relative)
+makes no difference as long as no waiting name is its own close relative … -/
+theorem partners_head_waiting_same (env : Env) (pseudo : Bool) (names : List Name)
+    (hno : ∀ n ∈ names, env.closeRelativeFor n pseudo ≠ some n) :
+    partnersLoopHeadWaiting env pseudo names.length names [] = partnersLoop env pseudo names.length names [] :=
+  partnersLoopHeadWaiting_eq env pseudo names.length names [] hno
+
+example : ∀ n ∈ ["A", "parenleft", "A", "parenright"], demoEnv.closeRelativeFor n true ≠ some n := by decide +kernel
+
+/-- … and all the difference when one is: searched with the head still waiting, the neutral glyph finds itself,
+comes back twice and the name behind it is lost; the loop of the code (head dropped first) keeps every name. -/
+theorem partners_head_waiting_differs :
+    partnersLoopHeadWaiting neutralEnv true 3 ["quotedblleft", "comma", "a"] [] = ["quotedblleft", "quotedblleft", "a"] ∧
+    partnersLoopHeadWaiting neutralEnv true 1 ["quotedblleft"] [] = ["quotedblleft", "quotedblleft"] ∧
+    partnersLoop neutralEnv true 3 ["quotedblleft", "comma", "a"] [] = ["quotedblleft", "comma", "a"] ∧
+    partnersLoop neutralEnv true 1 ["quotedblleft"] [] = ["quotedblleft"] := by
+  decide +kernel
+
+/-- the canned sort over a neutral quote glyph, its small-cap variant and an ordinary pair: every name once -/
+example : sortGlyphNames neutralEnv Gen.SortTables.tables [⟨.cannedDesign, true, true⟩]
+      ["comma", "quotedblleft", "a", "parenright", "quotedblleft.sc", "parenleft"] =
+    ["a", "parenleft", "parenright", "quotedblleft", "comma", "quotedblleft.sc"] := by
+  decide +kernel
+
 /-! ## 4. Findings -/
 
 /-- What the `block` / `script` / `category` sort really returns: exactly the names whose tag is in the
